@@ -5,7 +5,7 @@ CONSTANTS
   MaxNest = 3
   Bug = "none"
   Emit = TRUE
-  Samples = 3000
+  Samples = 2000
   EmitMod = 1
 INVARIANTS InvVisit EmitInv
 CHECK_DEADLOCK FALSE
